@@ -220,9 +220,12 @@ func (fw *FileWriter) WriteEntry(entry Entry) error {
 		return err
 	}
 
-	shouldFlush := fw.buffer.Add(entry)
-	if shouldFlush {
-		return fw.flushLocked()
+	// From here on the entry is accepted: it is in the buffer, and a flush that fails keeps it
+	// there (or has already put its block on disk). A flush error is therefore not this entry's
+	// error — reporting it made callers treat a queued entry as "not written". It is retried by
+	// the next flush and reported by Sync/Close.
+	if fw.buffer.Add(entry) {
+		_ = fw.flushLocked()
 	}
 
 	return nil
@@ -245,11 +248,8 @@ func (fw *FileWriter) WriteEntries(entries []Entry) error {
 	}
 
 	for _, entry := range entries {
-		shouldFlush := fw.buffer.Add(entry)
-		if shouldFlush {
-			if err := fw.flushLocked(); err != nil {
-				return err
-			}
+		if fw.buffer.Add(entry) {
+			_ = fw.flushLocked() // see WriteEntry: the entries stay queued, Sync/Close report the error
 		}
 	}
 
